@@ -70,7 +70,12 @@ def build(cfg, log, split=0):
         prefix, pat = options[split % len(options)]
         route = Route(pat, ep, methods=methods, slash_mode=cfg['routeMode'])
         inner = Application([route], slash_mode=cfg['innerMode'])
-        outer = Application([SubApplication(prefix, inner, inherit_slashes=cfg['inherit'])], slash_mode=cfg['appMode'])
+        if split % 2:
+            outer = Application([SubApplication(prefix, inner, inherit_slashes=cfg['inherit'])], slash_mode=cfg['appMode'])
+        else:
+            # the same embedding spelled as add((prefix, app), inherit_slashes=...): the explicit keyword decides
+            outer = Application(slash_mode=cfg['appMode'])
+            outer.add((prefix, inner), inherit_slashes=cfg['inherit'])
         outer._verif_log = log
         return outer
     route = Route(KIND[cfg['kind']], ep, methods=methods, slash_mode=cfg['routeMode'])
